@@ -274,6 +274,19 @@ REL = {"<": {"<"}, "<=": {"<", "="}, ">": {">"}, ">=": {">", "="}, "==": {"="}, 
 FLIPREL = {"<": ">", ">": "<", "=": "="}
 
 
+_FN = [None]
+
+
+def _sh(n):
+    """Canonical text of an operand, with a single-definition local replaced by its initialiser."""
+    m = X.strip(n)
+    if _FN[0] is not None and m is not None and m.k == "DeclRefExpr" and m.d.get("sc") == "local":
+        r = Q.resolve_local(_FN[0], m)
+        if r is not None:
+            return X.show(r)
+    return X.show(n)
+
+
 def _atoms(n, pairs, truths):
     n = X.strip(n)
     if n.k == "BinaryOperator" and n.op in ("&&", "||"):
@@ -282,7 +295,7 @@ def _atoms(n, pairs, truths):
     elif n.k == "UnaryOperator" and n.op == "!":
         _atoms(n.children[0], pairs, truths)
     elif n.k == "BinaryOperator" and n.op in REL and not X.is_zero(n.children[1]) and not X.is_zero(n.children[0]):
-        a, b = X.show(n.children[0]), X.show(n.children[1])
+        a, b = _sh(n.children[0]), _sh(n.children[1])
         if (a, b) not in pairs and (b, a) not in pairs:
             pairs.append((a, b))
     else:
@@ -301,7 +314,7 @@ def _evalf(n, rel, truth):
     if n.k == "UnaryOperator" and n.op == "!":
         return not _evalf(n.children[0], rel, truth)
     if n.k == "BinaryOperator" and n.op in REL and not X.is_zero(n.children[1]) and not X.is_zero(n.children[0]):
-        a, b = X.show(n.children[0]), X.show(n.children[1])
+        a, b = _sh(n.children[0]), _sh(n.children[1])
         r = rel[(a, b)] if (a, b) in rel else FLIPREL[rel[(b, a)]]
         return r in REL[n.op]
     core, neg = X.strip_bool(n)
@@ -317,6 +330,7 @@ def _votes(ck, P, cfg):
         ck.inconclusive("C07.3", "vote", f.where, "expected one vote RMW on thr_to_end, found %d" % len(votes), cfg)
         return
     v = votes[0]
+    _FN[0] = f
     paths, complete = Q.path_conditions(f, v)
     pairs, truths = [], []
     for conds in paths:
